@@ -505,9 +505,9 @@ def to_doc(I, v, ty=''):
             return ('rfc3339', v)
         if v.name == 'tuple':
             return ('arr', [to_doc(I, x, '') for x in v.fields])
-        pre = I.impls.get(('Serialize', v.name))
+        pre = I.impl_for('Serialize', v.name, ty)
         if pre:
-            r = I.run(pre[0] + '::serialize', [mkref(v), ModelSerializer()])
+            r = I.run(pre + '::serialize', [mkref(v), ModelSerializer()])
             if r.variant != 0:
                 raise Unsupported('model serializer returned Err')
             return r.fields[0].doc
